@@ -297,7 +297,7 @@ theorem dense_passOK (os : Objects) (ids : List ObjId) (start : Nat) (hn : ids.N
 /-- the dense pass of any document with a sorted object map, in the domain `1 ≤ start+n ≤ u32::MAX`,
 returns and is an `IsoStep` with the dense assignment as renaming -/
 theorem densePass_isoStep (d1 : Doc) (start : Nat) (hs : d1.objects.Sorted)
-    (hlo : 1 ≤ start + d1.objects.length) (hhi : start + d1.objects.length ≤ U32_MAXE) :
+    (hhi : start + d1.objects.length ≤ U32_MAXE + 1) :
     ∃ d2, densePass d1 start = .ok d2 ∧ d2.maxId = start + d1.objects.length - 1 ∧
       IsoStep d1.trailer d1.objects d2.trailer d2.objects (rhoFn (denseSpec (sortBy idLeE d1.objects.keys) start)) ∧
       (∀ p ∈ assign (sortBy idLeE d1.objects.keys) start, rhoFn (denseSpec (sortBy idLeE d1.objects.keys) start) p.1 = p.2) := by
@@ -316,8 +316,6 @@ theorem densePass_isoStep (d1 : Doc) (start : Nat) (hs : d1.objects.Sorted)
     unfold densePass
     rw [hids, densePairs_eq _ _ _ (by rw [hlen]; exact hhi)]
     simp only [List.nil_append, hlen]
-    have h0 : ¬ (start + d1.objects.length = 0) := by omega
-    simp only [h0, if_false]
     exact ⟨_, rfl, rfl, rfl, rfl⟩
   obtain ⟨d2, e1, e2, e3, e4⟩ := hren
   refine ⟨d2, e1, e2, ?_, rho_assign ids start hn⟩
